@@ -140,6 +140,12 @@ func runProp(r *chk.Run, prop string) {
 
 	results := runJobs(r, jobs)
 	agg(r, prop, jobs, results)
+	if prop == "C05" || prop == "C06" {
+		conformance(r, prop, jobs, results)
+	}
+	if prop == "C05" {
+		racePass(r, jobs)
+	}
 }
 
 func jsonOf(v interface{}) string { b, _ := json.Marshal(v); return string(b) }
